@@ -11,6 +11,7 @@ from vf.vloop import run_virtual, HangDetected
 
 ID = "C07"
 LEVEL = "exploration"
+BACKENDS = ["pydantic", "fallback"]   # every case is executed under both validation backends
 LOGLEVELS = ["default", "debug"]   # every case also runs with the root logger at DEBUG (as --verbose does)
 SHARDS = {"quick": 4, "thorough": 16}
 BUDGET_S = {"quick": 90.0, "thorough": 600.0}
